@@ -174,6 +174,12 @@ def api_level(ctx, thorough):
                     metas.append((gen, op, own, pol, kind, type(msg).__name__))
     readings = ctx.oracle(spec_lines) if spec_lines else []
     worst = {}
+
+    class Doc:
+        """the documented policies (values, not the package's module-level objects: a call that alters one of those objects must show)"""
+        def __init__(self, r, l):
+            self.max_retries, self.max_lifetime = r, l
+    S = type("Documented", (), {"RETRY_CONNECTED": Doc(0, 1.0), "RETRY_NON_IDEMPOTENT": Doc(0, 30.0), "RETRY_IDEMPOTENT": Doc(2, 30.0)})
     for (gen, op, own, pol, kind, mname), r in zip(metas, readings):
         ctx.case(("api-policy", gen, op, mname))
         if own:
